@@ -1,4 +1,45 @@
-From PG Require Import Model.Sched Gen.SchedProg.
-Theorem C16_placeholder : length progs = 7.
-Proof. reflexivity. Qed.
-Print Assumptions C16_placeholder.
+(* C16 — concurrent sampling hands out each trial once and loses no feedback.
+   Every theorem quantifies over ALL schedules (any list of thread ids), any number of workers with any scripts, and
+   (except the instance) over EVERY program set that passes the decidable discipline check. *)
+From PG Require Import Common.Tactics Model.Sched Model.SchedDisc Gen.SchedProg
+  Proofs.SchedMutex Proofs.SchedSound Proofs.SchedTheorems Proofs.SchedInstance.
+
+(* no lock ever has two holders: for every program set whatsoever *)
+Theorem Sched_mutex : forall ps c ws sched t1 t2 th1 th2 k,
+  let st := run ps c (init_state c ws) sched in
+  nth_error (snd st) t1 = Some th1 -> nth_error (snd st) t2 = Some th2 ->
+  In k (map snd (held th1)) -> In k (map snd (held th2)) -> t1 = t2.
+Proof. exact sched_mutex_holders. Qed.
+Print Assumptions Sched_mutex.
+
+Theorem C16_ids_exact : forall ps c, disciplined ps = true -> forall ws sched,
+  let st := run ps c (init_state c ws) sched in
+  let tr := trials_of st in
+  map t_id tr = seq 1 (length tr) /\ NoDup (map t_id tr) /\
+  (forall n, c_max c = Some n -> length tr <= n) /\
+  (s_full (study0_of st) = true -> c_max c = Some (length tr)) /\
+  (forall t th, nth_error (snd st) t = Some th -> r_study th = 0).
+Proof. exact ids_exact. Qed.
+Print Assumptions C16_ids_exact.
+
+Theorem C16_feedback_exactly_once : forall ps c, disciplined ps = true -> forall ws sched,
+  let st := run ps c (init_state c ws) sched in
+  (forall i x, nth_error (trials_of st) i = Some x -> t_fed x <= 1) /\
+  (finished (snd st) = true -> forall i x, nth_error (trials_of st) i = Some x -> t_fed x = if t_done x && negb (t_inf x) then 1 else 0).
+Proof. exact feedback_exactly_once. Qed.
+Print Assumptions C16_feedback_exactly_once.
+
+Theorem C16_bookkeeping_counters : forall ps c, disciplined ps = true -> forall ws sched,
+  let st := run ps c (init_state c ws) sched in
+  finished (snd st) = true ->
+  s_comp (study0_of st) = countp t_done (trials_of st) /\
+  s_pend (study0_of st) = countp (fun x => negb (t_done x)) (trials_of st) /\
+  s_inf (study0_of st) = countp t_inf (trials_of st) /\
+  (s_comp (study0_of st) + s_pend (study0_of st))%Z = Z.of_nat (length (trials_of st)).
+Proof. exact bookkeeping_counters. Qed.
+Print Assumptions C16_bookkeeping_counters.
+
+(* re-checked on every run against the programs regenerated from the current source *)
+Theorem C16_instance : disciplined Gen.SchedProg.progs = true.
+Proof. exact instance_disciplined. Qed.
+Print Assumptions C16_instance.
